@@ -74,6 +74,9 @@ enum Kind {
     Busy,
     /// stopped and joined right after creation: has "already stopped" in the strongest sense
     Done,
+    /// busy with a task that never completes and owns what a `spawn_blocking` helper on the same runtime
+    /// waits for (the sending half of a channel): the helper ends only when the task is dropped
+    Feeding,
 }
 
 #[derive(Clone, PartialEq, Debug)]
@@ -144,6 +147,9 @@ enum TaskKind {
     /// runtime cannot finish being dropped — the thread cannot exit — while the job runs, so the time between
     /// "the loop has ended" and "the thread has exited" becomes long enough to be looked at
     Blocking,
+    /// `pend`, and the future owns what a `spawn_blocking` helper on the arbiter's runtime waits for (see
+    /// `feeding_future`): the thread can only finish once the future has been dropped
+    PendOwn,
 }
 
 #[derive(Clone, Debug)]
@@ -168,6 +174,8 @@ struct Scenario {
     entries: Vec<Entry>,
     /// c09: a `batch` line exists
     has_batch: bool,
+    /// c09: `sysfeed`: the SYSTEM ARBITER hosts a feeding task (see `Kind::Feeding`)
+    sysfeed: bool,
     /// c09: arbiter whose process-wide number is made equal to the system's id
     align: Option<usize>,
     /// c10: number of command targets (arbiters incl. the system arbiter)
@@ -377,6 +385,31 @@ fn new_system_runner(custom: bool) -> actix_rt::SystemRunner {
     }
 }
 
+/// A local task that never completes and holds the sending half of a channel, and a `spawn_blocking`
+/// helper (on the same runtime's blocking pool) that drains the receiving half until the sender is dropped.
+/// When the runtime is torn down the task — dropped with the LocalSet — must go first: the runtime's own drop
+/// waits for running blocking closures.  (The helper gives up after 12 s so that a thread stuck in a defective
+/// teardown does not stay for good; the watchdogs are much shorter.)
+fn feeding_future(helper_started: Arc<AtomicBool>, on_start: impl FnOnce() + Send + 'static) -> impl Future<Output = ()> + Send + 'static {
+    async move {
+        on_start();
+        let (work_tx, work_rx) = mpsc::channel::<u32>();
+        tokio::task::spawn_blocking(move || {
+            helper_started.store(true, Ordering::SeqCst);
+            let t0 = Instant::now();
+            while t0.elapsed() < Duration::from_secs(12) {
+                match work_rx.recv_timeout(Duration::from_secs(12)) {
+                    Ok(_) => {}
+                    Err(_) => break,
+                }
+            }
+        });
+        let _ = work_tx.send(1);
+        std::future::pending::<()>().await;
+        drop(work_tx);
+    }
+}
+
 /// `Arbiter::new()` (on the calling thread, which must belong to a System) plus the per-kind set-up;
 /// `after_new` runs in the very next statement after `Arbiter::new()` returned.
 /// Returns the slot and, for `early` / `done`, what `stop()` returned.
@@ -412,6 +445,13 @@ fn make_slot(k: Kind, rng: &mut Rng, custom: bool, slow: bool, after_new: &mut d
             None
         }
         Kind::Running => Some(arb),
+        Kind::Feeding => {
+            let st = Arc::new(AtomicBool::new(false));
+            handle.spawn(feeding_future(st.clone(), || {}));
+            // the helper is running (the arbiter may have been stopped meanwhile: do not insist)
+            wait_flag(&st, Duration::from_secs(2));
+            Some(arb)
+        }
         Kind::Busy => {
             let rounds = 3 + rng.below(6);
             let us = 100 + rng.below(1500) as u64;
@@ -512,6 +552,7 @@ fn exec_c09(sc: &Scenario, mode_run: bool, block: bool, jseed: u64) -> Out {
     let ne = entries.len();
     let custom = sc.custom_rt;
     let slow = sc.slow_rt;
+    let sysfeed = sc.sysfeed;
     let plain = (jseed >> 3) & 1 == 0;
     let mut rng = Rng::new(jseed);
     let late: Late = Arc::new(Mutex::new(vec![]));
@@ -563,6 +604,10 @@ fn exec_c09(sc: &Scenario, mode_run: bool, block: bool, jseed: u64) -> Out {
         let _ = locked_tx.send(());
         let runner = new_system_runner(custom);
         let sys = System::current();
+        if sysfeed {
+            // started (with its helper) by the first turns of the system's event loop
+            sys.arbiter().spawn(feeding_future(Arc::new(AtomicBool::new(false)), || {}));
+        }
         // "immediate" flavour: the first stop, when it comes from the system thread before `run`,
         // is issued in the very next statement after the last `Arbiter::new()` returned — the
         // tightest race between that arbiter's `Register` and the `Exit`
@@ -991,6 +1036,8 @@ struct TaskLog {
     selfjoin_ret: Mutex<Vec<(usize, bool, usize)>>,
     /// senders that release the `blocking` jobs (dropping them releases too)
     blockers: Mutex<Vec<(usize, mpsc::Sender<()>)>>,
+    /// `pendown` tasks: has the blocking helper begun to run?
+    helpers: Mutex<Vec<(usize, Arc<AtomicBool>)>>,
 }
 
 /// what the director tells a task that holds its arbiter's thread
@@ -1099,6 +1146,18 @@ fn do_spawn(h: &Sender10, kind: TaskKind, task: usize, log: Arc<TaskLog>) -> boo
         }),
         // holds the arbiter's thread until the director opens the gate: everything sent meanwhile
         // is found by the arbiter's loop in one go
+        TaskKind::PendOwn => {
+            let flag = Arc::new(AtomicBool::new(false));
+            log.guards.lock().unwrap().push((task, flag.clone()));
+            let g = Guard(flag);
+            let helper = Arc::new(AtomicBool::new(false));
+            log.helpers.lock().unwrap().push((task, helper.clone()));
+            let fut = feeding_future(helper, move || log.start(task));
+            sp!(async move {
+                let _g = g;
+                fut.await
+            })
+        }
         TaskKind::Blocking => {
             let (tx, rx) = mpsc::channel::<()>();
             log.blockers.lock().unwrap().push((task, tx));
@@ -1243,6 +1302,7 @@ fn exec_c10(sc: &Scenario, jseed: u64) -> Out {
         selfjoin_owner: Mutex::new(HashMap::new()),
         selfjoin_ret: Mutex::new(vec![]),
         blockers: Mutex::new(vec![]),
+        helpers: Mutex::new(vec![]),
     });
     // per target: the owner object (None for the system arbiter) and a handle
     let mut real = arbs.into_iter();
@@ -1353,6 +1413,12 @@ fn exec_c10(sc: &Scenario, jseed: u64) -> Out {
         let _ = tx.send(HelperMsg::Quit);
     }
 
+    // the helper of every `pendown` task that has started is running (so that the teardown has to cope with it)
+    for (t, h) in log.helpers.lock().unwrap().iter() {
+        if log.started(*t) {
+            wait_flag(h, Duration::from_secs(2));
+        }
+    }
     // `late`: sends through the owner object once the loop has ended
     let mut owner_rets: Vec<String> = vec![];
     for (ai, on_sys, t1) in sc.lates.iter().copied() {
@@ -2040,6 +2106,7 @@ fn feed(sc: &mut Scenario, ws: &[&str]) -> LineRes {
                 "dropped" => Kind::Dropped,
                 "running" => Kind::Running,
                 "busy" => Kind::Busy,
+                "feeding" => Kind::Feeding,
                 "done" => Kind::Done,
                 _ => return bad(),
             };
@@ -2048,6 +2115,13 @@ fn feed(sc: &mut Scenario, ws: &[&str]) -> LineRes {
             }
             sc.kinds.push(kind);
             LineRes::Plain(format!("ok a{}", sc.kinds.len() - 1))
+        }
+        (9, ["sysfeed"]) => {
+            if sc.sysfeed || !sc.entries.is_empty() {
+                return bad();
+            }
+            sc.sysfeed = true;
+            LineRes::Plain("ok".into())
         }
         (9, ["align", k]) => {
             // after the `arb` lines, before the stops, once
@@ -2095,6 +2169,7 @@ fn feed(sc: &mut Scenario, ws: &[&str]) -> LineRes {
                     match *it {
                         "nr" => Action::New(Kind::Running),
                         "nb" => Action::New(Kind::Busy),
+                        "nf" => Action::New(Kind::Feeding),
                         "nd" => Action::New(Kind::Dropped),
                         "ne" => Action::New(Kind::Early),
                         "x" => Action::StopSysArb,
@@ -2196,7 +2271,7 @@ fn feed(sc: &mut Scenario, ws: &[&str]) -> LineRes {
         }
         (10, ["spawnn", a, via, kind, n]) => {
             let (Some(a), Some(kind), Some(n)) = (parse_nat(a), parse_kind(kind), parse_nat(n)) else { return bad() };
-            if a >= sc.narb || sc.nlines >= MAX_LINES || !(2..=1600).contains(&n) || sc.ntask + n > MAX_TASKS || kind == TaskKind::Gate || kind == TaskKind::SelfJoin || kind == TaskKind::Blocking {
+            if a >= sc.narb || sc.nlines >= MAX_LINES || !(2..=1600).contains(&n) || sc.ntask + n > MAX_TASKS || kind == TaskKind::Gate || kind == TaskKind::SelfJoin || kind == TaskKind::Blocking || kind == TaskKind::PendOwn {
                 return bad();
             }
             let Some(via) = parse_via(sc, a, via) else { return bad() };
@@ -2365,6 +2440,7 @@ fn parse_kind(s: &str) -> Option<TaskKind> {
         "gate" => TaskKind::Gate,
         "selfjoin" => TaskKind::SelfJoin,
         "blocking" => TaskKind::Blocking,
+        "pendown" => TaskKind::PendOwn,
         _ => return None,
     })
 }
@@ -2505,7 +2581,7 @@ fn run(a: &Args) {
 // generators
 // -------------------------------------------------------------------------------------------------
 
-const KINDS9: [&str; 5] = ["early", "dropped", "running", "busy", "done"];
+const KINDS9: [&str; 6] = ["early", "dropped", "running", "busy", "done", "feeding"];
 
 fn write_c09(w: &mut dyn Write, name: &str, kinds: &[usize], align: Option<usize>, stops: &[(String, i32, &str)], mode: &str, j: u64) {
     writeln!(w, "case {name} c09").unwrap();
@@ -2607,7 +2683,7 @@ fn write_batch_c09(w: &mut dyn Write, name: &str, rng: &mut Rng, kinds: &[usize]
             } else if b == b'x' {
                 "x".to_string()
             } else {
-                format!("n{}", ["r", "r", "b", "d", "e"][rng.below(5)])
+                format!("n{}", ["r", "r", "b", "d", "e", "f"][rng.below(6)])
             }
         })
         .collect();
@@ -2841,8 +2917,63 @@ fn directed_block_c09(w: &mut dyn Write, rng: &mut Rng, thorough: bool) {
     }
 }
 
+/// Directed scenarios (both tiers, in front) with `feeding` arbiters — busy with a task that never completes
+/// and owns what a `spawn_blocking` helper on the same runtime waits for — and / or such a task on the system
+/// arbiter (`sysfeed`): after the stop the loops end AND the threads finish (join / run return within the
+/// watchdog): at teardown the pending local tasks go before the runtime waits for its blocking pool.
+fn directed_feeding_c09(w: &mut dyn Write, rng: &mut Rng, thorough: bool) {
+    let mut n = 0;
+    let mut case = |w: &mut dyn Write, rng: &mut Rng, flags: &str, lines: &[&str], mode: &str| {
+        writeln!(w, "case f{n} c09{flags}").unwrap();
+        n += 1;
+        for l in lines {
+            writeln!(w, "{l}").unwrap();
+        }
+        writeln!(w, "go {mode} j={}", rng.next() % 1_000_000).unwrap();
+    };
+    case(w, rng, "", &["arb feeding", "stop foreign 3"], "code");
+    case(w, rng, " rt=custom", &["arb running", "arb feeding", "stop arb:1 0"], "run");
+    case(w, rng, "", &["arb running", "sysfeed", "stop sys-task 7"], "code");
+    case(w, rng, "", &["sysfeed", "batch sys-pre s1 nf s2"], "code");
+    case(w, rng, "", &["arb feeding", "sysfeed", "stop sys-task 4"], "block");
+    if thorough {
+        for flags in ["", " rt=custom"] {
+            for sysfeed in [false, true] {
+                for kinds in [&["feeding"][..], &["feeding", "feeding"], &["busy", "feeding", "early"], &["done", "feeding"], &["dropped", "running"]] {
+                    for origin in ["sys-pre", "sys-task", "foreign", "arb:0", "arb:1"] {
+                        let k = origin.strip_prefix("arb:").and_then(|x| x.parse::<usize>().ok());
+                        if k.map(|k| k >= kinds.len() || matches!(kinds[k], "early" | "done")).unwrap_or(false) {
+                            continue;
+                        }
+                        if !sysfeed && !kinds.contains(&"feeding") {
+                            continue;
+                        }
+                        let mut lines: Vec<String> = kinds.iter().map(|k| format!("arb {k}")).collect();
+                        if sysfeed {
+                            lines.push("sysfeed".into());
+                        }
+                        lines.push(format!("stop {origin} {}", *rng.pick(&[0, 6, -9, 65536])));
+                        let ls: Vec<&str> = lines.iter().map(|x| x.as_str()).collect();
+                        let mode = *rng.pick(&["code", "run", "block"]);
+                        case(w, rng, flags, &ls, mode);
+                    }
+                }
+            }
+        }
+        for origin in ["sys-pre", "sys-task", "arb:0"] {
+            for items in ["nf s1", "s1 nf s2", "nf nf s3", "s1 nf x s2"] {
+                let mut lines = vec!["arb feeding".to_string()];
+                lines.push(format!("batch {origin} {items}"));
+                let ls: Vec<&str> = lines.iter().map(|x| x.as_str()).collect();
+                case(w, rng, "", &ls, "run");
+            }
+        }
+    }
+}
+
 fn gen_c09(a: &Args, w: &mut dyn Write) {
     let mut rng = Rng::new(a.seed ^ 0xC09);
+    directed_feeding_c09(w, &mut rng, a.tier == "thorough");
     directed_block_c09(w, &mut rng, a.tier == "thorough");
     directed_sysarb_stop_c09(w, &mut rng, a.tier == "thorough");
     directed_codes_c09(w, &mut rng, a.tier == "thorough");
@@ -2885,7 +3016,7 @@ fn gen_c09(a: &Args, w: &mut dyn Write) {
     } else {
         for n in 0..72 {
             let na = [0, 1, 2, 2, 3, 3][rng.below(6)];
-            let kinds: Vec<usize> = (0..na).map(|_| rng.below(5)).collect();
+            let kinds: Vec<usize> = (0..na).map(|_| rng.below(6)).collect();
             let origins = origins_for(&kinds);
             let o = rng.pick(&origins).clone();
             let code = *rng.pick(&[0, 7, 7, -3, 255, 65536, 32768, i32::MAX, -131072]);
@@ -2934,6 +3065,7 @@ fn gen_c09(a: &Args, w: &mut dyn Write) {
     writeln!(w, "case bad3\narb running\nstop sys-pre 0\ngo code j=0").unwrap();
     writeln!(w, "case bad4 c09\nalign 0\narb done\nalign 1\nalign x\nalign 0\nalign 0\narb running\nstop arb:0 1\nstop foreign 1\nalign 0\ngo code j=2").unwrap();
     writeln!(w, "case bad5 c09 rt=custom\narb running\nbatch\nbatch foreign s1\nbatch sys-pre\nbatch sys-pre seq\nbatch arb:1 s1\nbatch sys-pre s1 nx\nbatch sys-pre sx\nbatch sys-pre s1 s2 s3 s4 s5 s6\nbatch sys-pre nr nr nr\nbatch sys-pre nr seq race\nbatch sys-pre nr\ngo code j=1\nbatch sys-task s1\nstop sys-task 1\nstop sys-pre 2 seq\nstop sys-pre 3 race\nstop foreign 4\ngo code j=3").unwrap();
+    writeln!(w, "case bad10 c09\nsysfeed\nsysfeed\narb feeding\narb feed\nbatch sys-pre nf nx s1\nbatch sys-pre nf s1\nsysfeed\ngo code j=2").unwrap();
     writeln!(w, "case bad9 c09\narb running\nbatch sys-pre nr s1\ngo block j=1\ngo blok j=1\ngo block\ngo run j=2\ngo block j=3").unwrap();
     writeln!(w, "case bad8 c09\nbatch foreign nr s1\nbatch foreign x nr\nbatch sys-pre xx\nbatch sys-pre X\nbatch foreign x\ngo code j=9\nstop sys-task 3\ngo code j=9").unwrap();
     writeln!(w, "case bad7 c09\nstop foreign 2147483648\nstop foreign -2147483649\nstop foreign 12345678901\nstop foreign --1\nstop foreign -\nbatch sys-pre s2147483648\nstop foreign -2147483648\nstop foreign 2147483647\ngo code j=8").unwrap();
@@ -2964,6 +3096,18 @@ fn directed_c10(w: &mut dyn Write, rng: &mut Rng, n: &mut usize, thorough: bool)
     // (0) a task running ON an arbiter sends while its thread is held: to its own arbiter through
     // `Arbiter::current()` (`c0`) or a captured handle (`t0`), behind commands / a stop other threads
     // have already sent; to another arbiter; stopping its own arbiter
+    // (00000) `pendown`: a pending task that owns what a blocking helper on the arbiter's runtime waits for — the
+    // thread must still finish after stop (join returns; the system's run returns when it is the system arbiter)
+    case(w, &[s("arb"), s("spawn 0 own pendown"), s("wait t0"), s("spawn 0 h1 fn"), s("wait t1"), s("stop 0 own")], rng);
+    case(w, &[s("@rt=custom"), s("sysarb"), s("arb"), s("spawn 0 own pendown"), s("spawn 1 h1 pendown"), s("spawn 1 own pend"), s("wait t0"), s("wait t2"), s("stop 1 h2"), s("stop 0 own")], rng);
+    if thorough {
+        for via in ["own", "h1", "h2"] {
+            for tgt in ["arb", "sysarb"] {
+                case(w, &[s(tgt), format!("spawn 0 {via} pendown"), s("spawn 0 own fn"), s("wait t1"), format!("spawn 0 {via} pendown"), s("wait t2"), s("stop 0 h1"), s("spawn 0 own pendown")], rng);
+            }
+            case(w, &[s("arb"), s("spawn 0 own gate"), s("wait t0"), format!("spawn 0 {via} pendown"), s("spawn 0 c0 pendown"), s("spawn 0 h1 blocking"), s("spawn 0 h2 fn"), s("open t0"), s("wait t4"), s("late 0 sys"), s("stop 0 c0")], rng);
+        }
+    }
     // (0000) a backlog far beyond a thousand commands behind a held thread: every send to the live arbiter is
     // accepted and everything in front of the stop starts, in order; the time between "loop ended" and "thread
     // exited", stretched by a blocking job: the channel refuses commands as soon as the loop is over
@@ -3141,6 +3285,9 @@ fn gen_c10(a: &Args, w: &mut dyn Write) {
                 if !(with_sys && arb == sys_pos) && rng.chance(1, 15) {
                     kind = "blocking";
                 }
+                if rng.chance(1, 12) {
+                    kind = "pendown";
+                }
                 // now and then the owner object goes into a task of its own arbiter and is joined there
                 if !(with_sys && arb == sys_pos) && !no_owner[arb] && rng.chance(1, 12) {
                     kind = "selfjoin";
@@ -3254,6 +3401,7 @@ fn gen_c10(a: &Args, w: &mut dyn Write) {
     writeln!(w, "case bad2 c10\narb\nspawn 0 own fn\nident\narb early\nstop sys-pre 1").unwrap();
     writeln!(w, "case bad3 c10\nhost 0 kept\nhost 4 kept\nhost 1 gone\nhost 2 kept\nhost 1 dropped\nsysarb\nsysarb\narb\narb\narb\nident\nspawn 1 own gate\nspawn 1 own fn\nwait t1\nwait t0\nopen t1\nopen t0\nopen t0\nwait t1\nspawnn 1 own fn 1\nspawnn 1 own fn 301\nspawnn 1 own gate 5\nspawnn 1 h1 fn 3\nspawnn 0 own fut 300\nspawnn 0 own fut 100\nstop 0 own\nstop 1 own\ngo j=9\nstop 2 h2\ngo j=9").unwrap();
     writeln!(w, "case bad4 c10\narb\nhost 1 kept\nspawn 0 own fn\nsysarb\nstop 0 own\ngo j=1").unwrap();
+    writeln!(w, "case bad10 c10\narb\nspawnn 0 own pendown 2\nspawn 0 own pendwn\nspawn 0 own pendown\nstop 0 own\ngo j=9").unwrap();
     writeln!(w, "case bad9 c10\nsysarb\narb\nspawn 0 own blocking\nspawnn 1 own blocking 2\nspawnn 1 own fn 1601\nspawnn 1 own fn 1600\nspawnn 1 h1 fn 800\nspawn 1 h1 blocking\nstop 0 own\nstop 1 own\ngo j=8").unwrap();
     writeln!(w, "case bad7 c10 rt=slow\nsysids 1 5\nsysids 9 5\nsysids 2 0\nsysids 2 1001\nsysids x 1\nsysarb\narb\nspawn 0 own selfjoin\nspawnn 1 own selfjoin 2\nlate 1 dir\nspawn 1 h1 selfjoin\nstop 1 own\nstop 0 own\ngo j=6").unwrap();
     writeln!(w, "case bad8 c10\narb\nspawn 0 h2 selfjoin\nspawn 0 h1 selfjoin\nlate 0 sys\nlate 0 dir\nstop 0 own\ngo j=7").unwrap();
